@@ -322,6 +322,55 @@ def run_case(case):
         _rel_linear(case, rng, ap, data, error, mask, ora, kw, base)
     if cls in ('poke', 'masked', 'fullmask') or rng.random() < 0.3:
         _rel_poke(case, rng, ap, data, error, mask, ora, kw, s2, e2, a2, base)
+    if cls != 'sky' and (cls in ('inside', 'edge', 'multi') or rng.random() < 0.2):
+        _rel_reassign(case, rng, kind, params, ap, data, error, mask, kw, base)
+
+
+def _rel_reassign(case, rng, kind, params, ap, data, error, mask, kw, base):
+    """An aperture that has already been used (cached box/edges) and then has one
+    parameter re-assigned must give the sums of a fresh aperture with those
+    parameters (the sums are mask-weighted sums of the *current* shape)."""
+    new = dict(params)
+    pos = np.array(ap.positions, float)
+    choices = ['positions']
+    if 'theta' in params:
+        choices += ['theta', 'theta']
+    if kind in ('circle', 'ellipse', 'rect'):
+        choices += [k for k in params if k != 'theta']
+    elif kind == 'circ_annulus':
+        choices += ['r_out']
+    elif kind == 'ell_annulus':
+        choices += ['a_out']
+    elif kind == 'rect_annulus':
+        choices += ['w_out']
+    attr = str(rng.choice(choices))
+    if attr == 'positions':
+        pos = pos + rng.uniform(-3, 3, size=2)
+        ap.positions = pos
+    elif attr == 'theta':
+        new['theta'] = G.gen_theta(rng)
+        ap.theta = new['theta']
+    else:
+        f = float(rng.uniform(1.05, 1.6)) if attr.endswith('_out') else float(rng.uniform(0.6, 1.6))
+        new[attr] = params[attr] * f
+        setattr(ap, attr, new[attr])
+    # derived inner axes are fixed at construction (b_in = b_out*a_in/a_out): the fresh
+    # object must be given the value the live object actually holds
+    if kind == 'ell_annulus':
+        new['b_in'] = float(ap.b_in)
+    elif kind == 'rect_annulus':
+        new['h_in'] = float(ap.h_in)
+    fresh = G.build_pixel(kind, pos, new)
+    mech = dict(base, form='reassigned', attr=attr)
+    s_a, e_a = ap.do_photometry(_cp(data), error=_cp(error), mask=_cp(mask), **kw)
+    s_f, e_f = fresh.do_photometry(_cp(data), error=_cp(error), mask=_cp(mask), **kw)
+    case.close(_vals(s_a), _vals(s_f), 'reassigned_sum_equals_fresh_aperture', mech=mech)
+    if error is not None:
+        case.close(_vals(e_a), _vals(e_f), 'reassigned_err_equals_fresh_aperture', mech=mech)
+    case.close(np.asarray(ap.area_overlap(_cp(data), mask=_cp(mask), **kw), float),
+               np.asarray(fresh.area_overlap(_cp(data), mask=_cp(mask), **kw), float),
+               'reassigned_area_equals_fresh_aperture', mech=mech)
+    case.note('reassign:' + attr)
 
 
 # ----------------------------------------------------------------------
